@@ -1,6 +1,11 @@
 package rules
 
-import "mqttverif/internal/load"
+import (
+	"mqttverif/internal/load"
+	"mqttverif/internal/pathx"
+)
+
+func init() { pathx.KnownNamed = load.KnownTypeNames() }
 
 // knownFuncs lists the functions and methods of the analysed packages as of the
 // tree the rules were written against (load/known_gen.go). A function that is
